@@ -452,7 +452,10 @@ pub fn gen_udp_plan_for(g: &mut Gen, thorough: bool, max_payload: usize, edge: O
                     },
                     _ => g.range(9, 300) as usize,
                 };
-                ops.push(UdpOp::Send { t: g.below(n_targets as u64) as usize, size: size.min(max_payload) });
+                // now and then a datagram that cannot be forwarded at all (too large once the protocol's header is added): it may be
+                // dropped whole, and the datagrams that follow it must be served as usual
+                let size = if max_payload > 60_000 && g.chance(4) { 65507 - g.range(0, 40) as usize } else { size.min(max_payload) };
+                ops.push(UdpOp::Send { t: g.below(n_targets as u64) as usize, size });
             }
         }
         apps.push(ops);
@@ -495,6 +498,13 @@ pub fn gen_c02(seed: u64, thorough: bool) -> Plan {
     };
     let edge = if proto == Proto::Vmess { Some(must_carry(proto)) } else { None };
     let mut up = gen_udp_plan_for(&mut g, thorough, max_payload, edge);
+    if proto == Proto::Shadowsocks && up.targets.len() > 1 && g.chance(20) {
+        // one target answers with a datagram that is too large to go back once salt, header and tag are added: that one reply
+        // may be dropped, every other reply - of this and of every other association - must still arrive
+        let t = g.below(up.targets.len() as u64) as usize;
+        up.targets[t].replies = up.targets[t].replies.max(1);
+        up.targets[t].reply_size = 65507 - g.range(0, 60) as usize;
+    }
     if proto == Proto::Shadowsocks && g.chance(35) {
         up.loss_pm = *g.pick(&[0, 100, 300]);
         up.dup_pm = *g.pick(&[0, 200, 500]);
